@@ -5,3 +5,4 @@ pub mod c03;
 pub mod c04;
 pub mod c06;
 pub mod c18;
+pub mod c19;
